@@ -169,6 +169,51 @@ def unit_tracker():
     return out
 
 
+def obj_loop(src, impl, fn, elem, elem_ty, coll):
+    """`fn(&mut self, actions, time, coll: &mut [Box<dyn Trait>])` whose body is exactly one `for elem in coll { .. }` over trait
+    objects: translated to a left fold that threads `self` and rebuilds the list of (updated) objects, in order, each exactly once"""
+    sig, body = R.find_fn(src, impl, fn)
+    mode, params, ret = R.parse_sig(sig)
+    if mode != "mut" or ret is not None or [p[0] for p in params] != ["actions", "time", coll]:
+        raise Untranslatable(f"{fn}: signature is no longer (&mut self, actions, time, {coll})")
+    ast = R.P(R.lex(body)).block()
+    stmts = [s for s in ast[1]]
+    if len(stmts) != 1 or stmts[0][0] != "for" or ast[2] is not None:
+        raise Untranslatable(f"{fn}: the body is not a single `for` loop")
+    _, pat, it, lb = stmts[0]
+    if pat != ("pbind", elem, False) or it != ("path", [coll]):
+        raise Untranslatable(f"{fn}: the loop is not `for {elem} in {coll}`")
+    if R.any_node(lb, lambda x: x[0] in ("return",) or (x[0] == "path" and x[1] in (["continue"], ["break"]))):
+        raise Untranslatable(f"{fn}: early exit inside the loop")
+    ctx = R.Ctx("TriggerTracker", "mut", True, [])
+    ctx.loop_result = f"(self, acc.2 ++ [{elem}])"
+    text = R.seq(lb[1], lb[2], [], ctx, 3)
+    text = R.seq(lb[1], lb[2], [], ctx, 2)
+    return (f"/-- one iteration of the loop of `{fn}` -/\n"
+            f"def TriggerTracker.{fn}_step (actions : ActionsView) (time : Tick) (acc : TriggerTracker × List {elem_ty}) ({elem} : {elem_ty}) : "
+            f"TriggerTracker × List {elem_ty} :=\n  let self := acc.1\n  " + text + "\n\n"
+            f"def TriggerTracker.{fn} (self : TriggerTracker) (actions : ActionsView) (time : Tick) ({coll} : List {elem_ty}) : "
+            f"TriggerTracker × List {elem_ty} :=\n  {coll}.foldl (TriggerTracker.{fn}_step actions time) (self, [])\n")
+
+
+def unit_loops():
+    """`apply_modifiers` / `apply_conditions` as loops over trait objects (the model's `Mod` / `Cond` machines stand for
+    `Box<dyn InputModifier>` / `Box<dyn InputCondition>`): every object is invoked exactly once, in order, with no early out, on
+    the value as it stands, and the flag update of each condition result is the translated `match condition.kind()`."""
+    src = read("src/input_context/context_instance/trigger_tracker.rs")
+    impl = r"impl TriggerTracker\s*\{"
+    R.CALL_RENAME.update({"evaluate": "evaluate_obj", "kind": "kind_obj", "apply": "apply_obj"})
+    R.OBJ_MUTATING.update({"evaluate", "apply"})
+    try:
+        out = obj_loop(src, impl, "apply_modifiers", "modifier", "Mod", "modifiers") + "\n"
+        out += obj_loop(src, impl, "apply_conditions", "condition", "Cond", "conditions")
+    finally:
+        for k_ in ("evaluate", "kind", "apply"):
+            R.CALL_RENAME.pop(k_, None)
+        R.OBJ_MUTATING.difference_update({"evaluate", "apply"})
+    return out
+
+
 def unit_merge():
     """the merge step of `ActionBind::update`: the `match current_state.cmp(&tracker_state) { Less / Equal / Greater }` inside its
     `for binding` loop, as a function of the loop's variables (the loop itself, the reader and the trait-object calls are tied by the
@@ -251,6 +296,7 @@ UNITS = [
     ("Tracker", unit_tracker, ["Value"], ["C03", "C04"]),
     ("ActionData", unit_actiondata, ["Value", "Events"], ["C10", "C01"]),
     ("Merge", unit_merge, ["Value", "Tracker"], ["C04", "C05"]),
+    ("Loops", unit_loops, ["Value", "Tracker"], ["C03", "C12"]),
     ("Modifiers", unit_modifiers, ["Value"], ["C18"]),
     ("Refs", unit_refs, ["Value"], ["C13", "C18"]),
 ]
@@ -270,6 +316,8 @@ def main():
         imports = "import BEI.Model.Rs\n" + "".join(f"import BEI.Gen.Code.{d}\n" for d in deps)
         if name == "Merge":
             imports += "import BEI.Model.RsMerge\n"
+        if name == "Loops":
+            imports += "import BEI.Model.RsLoops\n"
         bad = [d for d in deps if status[d]["status"] != "translated"]
         try:
             if bad:
